@@ -156,4 +156,25 @@ example : (run ex σa).log ≠ (run ex σb).log := by decide
 /-- a thread's message is attributed to no action although its creator is inside action 1; a task's to action 1 -/
 example : parentOcc (run ex σb).log (10, .msg) = some none ∧ parentOcc (run ex σb).log (20, .msg) = some (some 1) := by decide
 
+/-- shared Action objects.  Main: action 1 { create job 5; tasks 1 and 2; join both }.
+Task 1: own action 11 { `with action_1.context():` msg 12 } msg 13.
+Task 2: own action 21 { `with job_5:` msg 22 } msg 23.  Overlapping blocks (1 enters, 2 enters, 1 leaves, 2 leaves). -/
+def exShared : Prog :=
+  ⟨[[.enter 1, .create 5, .spawnTask 1, .spawnTask 2, .join 1, .join 2, .exit],
+    [.enter 11, .ctxOf 1, .log 12, .exit, .log 13, .exit],
+    [.enter 21, .withOf 5, .log 22, .exit, .log 23, .exit]]⟩
+def σs : List Nat := [0, 0, 0, 0, 1, 2, 1, 2, 1, 2, 1, 2, 1, 2, 1, 2, 0, 0, 0]
+
+example : Joined exShared := by unfold Joined; decide
+example : OccUnique exShared := by
+  unfold OccUnique seqLog
+  simp [exShared, Prog.code, Prog.n, denCode, Rec.key]
+example : MainDone (run exShared σs) := by unfold MainDone; decide
+/-- inside the shared blocks the messages go to the shared actions; after them each task is back in its own action -/
+example : (run exShared σs).log.reverse.filterMap (fun r => if r.kind = .msg then some (r.unit, r.occ, r.parent) else none) =
+    [(1, 12, some 1), (2, 22, some 5), (1, 13, some 11), (2, 23, some 21)] := by decide
+/-- a unit waits for a handle that has not been created yet -/
+example : (step exShared (init exShared) 0).isSome ∧
+    (step ⟨[[.withOf 5]]⟩ (init ⟨[[.withOf 5]]⟩) 0).isNone := by decide
+
 end Ctx.C05
